@@ -1063,6 +1063,17 @@ func lookupRecursionRule(c *Ctx, r *Report, p *Prov, lookupFns map[*ssa.Function
 							}
 						}
 					}
+					if l == nil && sl.High == nil && sl.Low != nil {
+						// the OperatorMap descent written with index arithmetic: what follows the
+						// marker and the client-chosen name - path[slices.Index(path, marker)+2:]
+						if bo, isB := peel(sl.Low).(*ssa.BinOp); isB && bo.Op == token.ADD {
+							if two, isC := constInt(bo.Y); isC && two == 2 {
+								if ic, isCall := peel(bo.X).(*ssa.Call); isCall && strings.HasPrefix(calleeKey(&ic.Call), "slices.Index") && len(ic.Call.Args) == 2 && peel(ic.Call.Args[0]) == ssa.Value(pathPrm) {
+									okLow = true
+								}
+							}
+						}
+					}
 					r.Check(okLow, rule, fmt.Sprintf("%s:restarts-with-the-rest-of-the-path#%d", f.Name(), n), c.InstrPos(call),
 						"the lookup restarts with path[i+1:] for the loop index i",
 						"the lookup restarts below an operator array with something other than the rest of the path (path[i+1:]): the positions below $and / $or / compound clauses are classified by a neighbouring key")
